@@ -1,5 +1,5 @@
 import Zc.GenFn.Queue
-import Zc.Model.Reply
+import Zc.GenFacts.FnDict
 /-! # `_handlers/multicast_outgoing_queue.py` as translated statement by statement  =  the `Reply` model's queue (C12)
 
 `Zc.GenFn.Queue` is regenerated from the bodies of `MulticastOutgoingQueue.async_add`, `_remove_answers_from_queue` and
@@ -9,22 +9,9 @@ field `born` and the one armed timer as `timer : Option Int`; the generated code
 the `call_at` it performs.  `Rel s q`: the deque is the model's group list without the ghost field, the two delays are the
 model's parameters, and every `answers` dict is a dict (`PyDict.WF`; true of every Python dict handed in). -/
 namespace Zc.GenFacts.FnQueue
-open Zc Zc.Py Zc.Reply Zc.GenFn.Queue
+open Zc Zc.Py Zc.Reply Zc.GenFn.Queue Zc.GenFacts.FnDict
 
 set_option linter.unusedSimpArgs false
-
-/-- `==` on the model's record numbers -/
-abbrev natEq : Nat → Nat → Bool := fun a b => a == b
-
-theorem natEq_keyEq : KeyEq natEq where
-  refl a := by simp [natEq]
-  symm a b h := by
-    have : a = b := by simpa [natEq] using h
-    subst this; simp [natEq]
-  trans a b c h1 h2 := by
-    have e1 : a = b := by simpa [natEq] using h1
-    have e2 : b = c := by simpa [natEq] using h2
-    subst e1; subst e2; simp [natEq]
 
 /-- a model group without its ghost field -/
 def strip (g : Group) : AnswerGroup := { send_after := g.sa, send_before := g.sb, answers := g.answers }
@@ -36,54 +23,6 @@ def qpOf (s : MulticastOutgoingQueue) : QP := { addl := s.additional_delay, agg 
 structure Rel (s : MulticastOutgoingQueue) (q : Queue) : Prop where
   groups : s.queue = q.groups.map strip
   wf : ∀ g ∈ q.groups, PyDict.WF natEq g.answers
-
-/-! ### bridge: the model's `Dict` operations are the runtime's on a well-formed dict -/
-
-theorem dict_has_eq (d : Dict) (k : RecId) : Dict.has d k = PyDict.contains natEq d k := by
-  rw [PyDict.contains_eq_any]; rfl
-
-theorem dict_set_eq (d : Dict) (k : RecId) (v : List RecId) (h : PyDict.WF natEq d) : Dict.set d k v = PyDict.set natEq d k v := by
-  unfold Dict.set
-  rw [dict_has_eq]
-  cases hc : PyDict.contains natEq d k with
-  | false => simp [PyDict.set_of_not_contains hc]
-  | true =>
-    simp only [if_true]
-    induction d with
-    | nil => simp [PyDict.contains] at hc
-    | cons x r ih =>
-      obtain ⟨k0, v0⟩ := x
-      obtain ⟨h1, h2⟩ := PyDict.WF_cons.1 h
-      rw [List.map_cons, PyDict.set_cons]
-      by_cases h0 : k0 = k
-      · subst h0
-        simp only [natEq, beq_self_eq_true, if_true, List.cons.injEq, true_and]
-        -- no other entry has this key
-        rw [List.map_congr_left (g := id)]
-        · simp
-        · intro p hp
-          have := h1 p hp
-          simp only [natEq, beq_eq_false_iff_ne, ne_eq] at this
-          have : ¬ p.1 = k0 := fun e => this e.symm
-          simp [this]
-      · have hb : (k0 == k) = false := by simpa using h0
-        simp only [natEq, hb, Bool.false_eq_true, if_false, List.cons.injEq, true_and]
-        have hc' : PyDict.contains natEq r k = true := by
-          rw [PyDict.contains_eq_any] at hc ⊢
-          simpa [natEq, hb] using hc
-        exact ih h2 hc'
-
-theorem dict_update_eq (d o : Dict) (h : PyDict.WF natEq d) :
-    Dict.update d o = PyDict.update natEq d o ∧ PyDict.WF natEq (PyDict.update natEq d o) := by
-  unfold Dict.update PyDict.update
-  induction o generalizing d with
-  | nil => exact ⟨rfl, h⟩
-  | cons e r ih =>
-    rw [List.foldl_cons, List.foldl_cons, dict_set_eq d e.1 e.2 h]
-    exact ih _ (PyDict.WF_set h _ _)
-
-theorem dict_erase_eq (d : Dict) (k : RecId) (h : PyDict.WF natEq d) : Dict.erase d k = PyDict.erase natEq d k := by
-  rw [PyDict.erase_eq_filter natEq_keyEq h]; rfl
 
 /-! ### `_remove_answers_from_queue` -/
 
